@@ -10,11 +10,12 @@ Merges: flat merge of un-merged sources into a fresh / updated target (must pool
 sequential merges and update-after-merge (known defects, re-established on the real code every run).
 """
 from __future__ import annotations
+import copy
 import math
 from fractions import Fraction as Fr
 import torch
 from ..common import G5, Rng, Report, ft, it, run_driver
-from ..registry import BY_NAME, Batch, W4, new_metric
+from ..registry import BY_NAME, Batch, W4, new_metric, fresh_cfg
 from ..progs import Prog, run_real, model_results, compare_with_model
 from ..engine import observe, obs_json
 import torcheval.metrics as M
@@ -282,6 +283,94 @@ def check_stream(rep: Report, found: Found, cls, cfg, batches, progs, pre=()):
                 found.add(f"C13|{cls}|update-stream|lifetime-ne-all",
                           f"{cls}({cfg_label(cfg)}) after {k} updates: lifetime {vals(outs[0])} but non-windowed metric on all updates = {exp_l}", hist)
 
+
+
+# ------------------------------------------------------------------ (1b) streams with REJECTED update() calls in between
+
+def invalidate(cls: str, cfg: dict, b: Batch, rng: Rng) -> Batch:
+    """a batch the class must reject: the second tensor is one sample longer than the first, or (normalized entropy on
+    probabilities) a probability above 1."""
+    args = list(b.args)
+    if cls == "WindowedBinaryNormalizedEntropy" and not cfg.get("from_logits") and rng.random() < 0.5:
+        x = args[0].clone()
+        x.reshape(-1)[0] = 1.5
+        return Batch((x, *args[1:]), dict(b.kwargs))
+    if len(args) >= 2:
+        y = args[1]
+        args[1] = torch.cat([y, y.narrow(-1 if cls != "WindowedMeanSquaredError" else 0, 0, 1)], dim=-1 if cls != "WindowedMeanSquaredError" else 0)
+        return Batch(tuple(args), dict(b.kwargs))
+    x = args[0]
+    return Batch((x.reshape(1, *x.shape, 1),), dict(b.kwargs))       # a 3-D (or 4-D) click tensor
+
+
+def check_rejected_stream(rep: Report, found: Found, cls, cfg, items):
+    """`items`: list of (batch, is_invalid).  A rejected update() is still a call of the history: the windowed value must be
+    the non-windowed metric over the last N ACCEPTED updates whatever was rejected in between."""
+    N, life = cfg["max_num_updates"], cfg.get("enable_lifetime", True)
+    m = new_metric(BY_NAME[cls], fresh_cfg(cfg))
+    ref_probe = nonwindowed(cls, cfg)
+    accepted, tol = [], tol_of(cls)
+    for step, (b, bad) in enumerate(items, 1):
+        payload = {"kind": "rejected-stream", "class": cls, "cfg": cfg, "step": step,
+                   "items": [[x.describe(), bool(f)] for x, f in items[:step]]}
+        try:
+            b.apply(m)
+            err = None
+        except Exception as e:  # noqa: BLE001
+            err = e
+        if bad:
+            try:
+                b.apply(copy.deepcopy(ref_probe))
+                ref_ok = True
+            except Exception:  # noqa: BLE001
+                ref_ok = False
+            if err is None or ref_ok:
+                rep.count(f"{cls}:invalid-batch-not-rejected-by-both")      # not a rejected call after all: no claim about it
+                if err is None:
+                    accepted.append(b)
+                if ref_ok != (err is None):
+                    return
+            else:
+                rep.count(f"{cls}:rejected-update")
+        elif err is not None:
+            found.add(f"C13|{cls}|valid-update|raises", f"{cls}({cfg_label(cfg)}) update #{step} raised {err!r}", payload)
+            return
+        else:
+            accepted.append(b)
+        if not accepted:
+            continue
+        r = observe(m)
+        k = len(accepted)
+        rep.case(nontrivial_key=("rejected", cls, cfg_label(cfg), step, k) if any(f for _, f in items[:step]) else None)
+        if r[0] != "ok" or len(r[1]) != (2 if life else 1):
+            found.add(f"C13|{cls}|non-empty-window|compute-raises", f"{cls}({cfg_label(cfg)}) after {k} accepted updates: {obs_json(r)}", payload)
+            return
+        exp_w = oracle_updates(cls, cfg, accepted[max(0, k - N):])
+        c = close(vals(r[1][-1]), exp_w, tol, undefined_ok=(cls == "WindowedWeightedCalibration"))
+        if c is not None and not c:
+            found.add(f"C13|{cls}|stream-with-rejected-updates|windowed-ne-lastN-accepted",
+                      f"{cls}({cfg_label(cfg)}) after {step} update() calls ({k} accepted): windowed {vals(r[1][-1])} but the non-windowed "
+                      f"metric on the last {min(k, N)} accepted updates = {exp_w}", payload)
+            return
+        if life:
+            exp_l = oracle_updates(cls, cfg, accepted)
+            c = close(vals(r[1][0]), exp_l, tol, undefined_ok=(cls == "WindowedWeightedCalibration"))
+            if c is not None and not c:
+                found.add(f"C13|{cls}|stream-with-rejected-updates|lifetime-ne-all-accepted",
+                          f"{cls}({cfg_label(cfg)}) after {step} update() calls ({k} accepted): lifetime {vals(r[1][0])} but non-windowed = {exp_l}", payload)
+                return
+
+
+def rejected_items(cls, cfg, rng: Rng):
+    N = cfg["max_num_updates"]
+    weighted = rng.random() < 0.5
+    items = []
+    for i in range(3 * N + 3):
+        b = gen_batch(cls, cfg, rng, rng.choice([1, 2, 3]), weighted)
+        if rng.random() < 0.3:
+            items.append((invalidate(cls, cfg, b, rng), True))
+        items.append((b, False))
+    return items
 
 def update_configs(cls):
     out = []
@@ -559,6 +648,7 @@ def run(rep: Report):
                     pre = [gen_batch(cls, cfg, rng, rng.choice([1, 2, 3]), weighted) for _ in range(kpre)]
                     rep.count(f"{cls}:streams-after-reset")
                 check_stream(rep, found, cls, cfg, batches, progs, pre)
+                check_rejected_stream(rep, found, cls, cfg, rejected_items(cls, cfg, rng))
     # (2) AUROC sample streams
     for N in NS:
         for t in (1, 2):
@@ -650,6 +740,13 @@ def replay(payload) -> bool:
         for sig, what in at_step:
             print(f"replay: {sig}: {what}"[:600])
         return not at_step
+    if kind == "rejected-stream":
+        if not isinstance(rp.get("items"), list) or cls == AUROC:
+            _nothing("rejected-stream payload without its items")
+        check_rejected_stream(rep, found, cls, cfg, [(Batch.from_describe(d), bool(f)) for d, f in rp["items"]])
+        for sig, what, _pl in found.all:
+            print(f"replay: {sig}: {what}"[:600])
+        return not found.all
     if kind == "merge":
         if not all(k in rp for k in ("ops", "pools", "alls", "sig_rel", "label")):
             _nothing("merge payload without the program and the expected pool / lifetime lists (recorded before they were part of the payload)")
@@ -666,4 +763,4 @@ def replay(payload) -> bool:
         for sig, what, _pl in found.all:
             print(f"replay: {sig}: {what}"[:600])
         return not found.all
-    _nothing(f"replay kind {kind!r} is not one of stream / auroc-stream / merge")
+    _nothing(f"replay kind {kind!r} is not one of stream / auroc-stream / rejected-stream / merge")
